@@ -91,6 +91,12 @@ func genScalar(tp *kernel.Tape, proto int) wType {
 // genCellType draws a type whose cells the scenarios can compare: scalars, collections of
 // scalars (and one more level), tuples and UDTs of scalars/collections at the top level.
 func genCellType(tp *kernel.Tape, proto int, top bool) wType {
+	if extraScalars && top && tp.Chance(1, 20) {
+		// byzantine scenario only: a custom type whose class is the bare name of a
+		// parameterised marshal class (no server describes a column like this)
+		return wType{ID: cqlspec.TCustom, Custom: "org.apache.cassandra.db.marshal." +
+			[]string{"TupleType", "ListType", "SetType", "MapType", "UserType", "ReversedType", "FrozenType"}[tp.Next(7)]}
+	}
 	k := tp.Weighted([]int{10, 2, 2, 2, 1, 1})
 	if proto < 3 && k >= 4 {
 		k = 0 // tuples and UDTs exist from v3
@@ -308,6 +314,12 @@ func genValue(tp *kernel.Tape, t wType, proto int) (interface{}, []byte) {
 			cells = append(cells, cqlspec.Cell{Bytes: b})
 		}
 		return m, cqlspec.EncTuple(cells)
+	case cqlspec.TCustom:
+		b := make([]byte, tp.Next(9))
+		for i := range b {
+			b[i] = byte(tp.Next(256))
+		}
+		return b, b
 	}
 	panic("genValue: unsupported type " + t.String())
 }
